@@ -25,6 +25,7 @@ POOL = {
     "types": "def types(a: Qint[2]) -> bool:\n    return a == 1",
     "copy": "def copy(a: Qint[2]) -> Qint[2]:\n    return a ^ 1",
     "par": "def test(c: Parameter[bool], a: bool, b: bool) -> bool:\n    return (a and c) or b",
+    "parl": "def test(w: Parameter[List[int]], a: Qint[2]) -> Qint[4]:\n    return sum(w) + a + len(w)",
     "sec": "def sec(x: Qint[2]) -> bool:\n    return x[0] ^ x[1]",
     "sim": "def sim(x: Qint[2]) -> Qint[2]:\n    return x & 1",
     "const": "def cst(a: Qint[2]) -> bool:\n    return True",
@@ -34,7 +35,7 @@ PRED2 = ["eq2", "oracle", "types", "sec"]          # Qint[2] -> bool
 BOOL2 = ["and", "if", "ast2ast", "f"]               # (bool, bool) -> bool
 ANYQF = PRED2 + BOOL2 + ["inc", "copy", "sim", "const"]
 
-OPS = ["compile", "compile_fast", "bind", "compose", "oraclize", "grover", "grover_el", "dj", "bv", "simon",
+OPS = ["compile", "compile_fast", "bind", "bindl", "compose", "oraclize", "grover", "grover_el", "dj", "bv", "simon",
        "qasm", "qiskit", "sympy", "decompile", "decopt", "truth_table", "recompile", "logicfun", "repr"]
 
 
@@ -113,6 +114,10 @@ class World:
             u = self.qf.get("par") or qlassf(POOL["par"])
             self.qf["par"] = u
             return fp_qf(u.bind(c=op[2]))
+        if kind == "bindl":
+            u = self.qf.get("parl") or qlassf(POOL["parl"])
+            self.qf["parl"] = u
+            return fp_qf(u.bind(w=list(op[2])))
         if kind == "compose":
             return fp_qf(qlassf(POOL["caller"], defs=[self.get("inc")]))
         if kind == "oraclize":
@@ -166,9 +171,11 @@ def fp_unbound(u):
 def random_op(rng):
     kind = rng.choice(OPS)
     if kind in ("compile", "compile_fast"):
-        return (kind, rng.choice(list(k for k in POOL if k not in ("par", "caller"))))
+        return (kind, rng.choice(list(k for k in POOL if k not in ("par", "parl", "caller"))))
     if kind == "bind":
         return (kind, "par", rng.random() < 0.5)
+    if kind == "bindl":
+        return (kind, "parl", rng.choice([(1, 0, 0), (1, 1, 0), (2,), (3, 1)]))
     if kind == "compose":
         return (kind, "caller")
     if kind == "oraclize":
@@ -286,6 +293,7 @@ def fixed_histories():
         [("compile", "f"), ("compile", "types"), ("compile", "copy"), ("compile", "and"), ("logicfun", "copy")],
         [("oraclize", "oracle", True), ("repr", "oracle"), ("grover", "oracle"), ("oraclize", "oracle", True)],
         [("bind", "par", True), ("bind", "par", False), ("bind", "par", True)],
+        [("bindl", "parl", (1, 0, 0)), ("bindl", "parl", (1, 1, 0)), ("bindl", "parl", (2,)), ("bindl", "parl", (1, 0, 0))],
         [("compose", "caller"), ("logicfun", "inc"), ("compose", "caller"), ("oraclize", "inc", 2), ("compose", "caller")],
         [("decompile", "and"), ("decompile", "eq2"), ("decopt", "eq2"), ("qasm", "eq2"), ("decompile", "and")],
         [("dj", "sec"), ("bv", "sec"), ("grover", "sec"), ("simon", "sim"), ("qiskit", "sec"), ("qiskit", "sim")],
